@@ -2,6 +2,7 @@ package props
 
 import (
 	"fmt"
+	"strings"
 	"testing"
 
 	"github.com/ChrisTrenkamp/xsel"
@@ -16,6 +17,11 @@ import (
 
 var c18Rel = reg("C18", "c18-rel", checkEvalCase)
 var c18Comp = reg("C18", "c18-compose", checkC18Compose)
+
+// Unmarshal evaluates field tags as sub-queries from the struct's node: the
+// same oracle as C19 (field = the tag's result from that node, position 1,
+// size 1), driven with context-dependent tags on slice elements.
+var c18Unmarshal = reg("C18", "c18-unmarshal-subquery", checkC19)
 
 type c18Case struct {
 	Events []xmodel.Event    `json:"events"`
@@ -77,6 +83,37 @@ func TestC18(t *testing.T) {
 			recordFailure("C18", "c18-rel", c, err.Error())
 			t.Fatalf("C18/relative: %v", err)
 		}
+	})
+	runProp(t, "unmarshal-subquery", 3000, 100000, func(t *rapid.T) {
+		ev := addNAttrs(t, xmodel.Gen(t, c19Doc()))
+		tags := []string{"position()", "last()", "position() = last()", "name()", "name(..)", "count(following-sibling::*)", "count(preceding::*)", "string(..)", "count(ancestor::*)", ".", "following::*[1]", "@n"}
+		elem := &tdesc{Kind: "struct"}
+		for i, n := 0, rapid.IntRange(1, 4).Draw(t, "nFields"); i < n; i++ {
+			tag := tags[rapid.IntRange(0, len(tags)-1).Draw(t, "tag")]
+			kind := "string"
+			if strings.HasPrefix(tag, "position()") && !strings.Contains(tag, "=") || tag == "last()" || strings.HasPrefix(tag, "count(") {
+				kind = []string{"int", "string", "float64", "uint8"}[rapid.IntRange(0, 3).Draw(t, "numKind")]
+			}
+			if strings.Contains(tag, "=") {
+				kind = "bool"
+			}
+			elem.Fields = append(elem.Fields, fdesc{Name: fmt.Sprintf("F%d", i), Tag: tag, T: &tdesc{Kind: kind}})
+		}
+		if rapid.Bool().Draw(t, "nested") {
+			inner := &tdesc{Kind: "struct", Fields: []fdesc{{Name: "P", Tag: "position()", T: &tdesc{Kind: "int"}}, {Name: "L", Tag: "last()", T: &tdesc{Kind: "int"}}, {Name: "N", Tag: "name()", T: &tdesc{Kind: "string"}}}}
+			elem.Fields = append(elem.Fields, fdesc{Name: "In", Tag: pick(t, "innerTag", []string{".", "..", "*[1]"}), T: inner})
+		}
+		c := &c19Case{Events: ev, Select: pick(t, "select", []string{"//a", "//*", "/*/*", "//b", "//a/.."}), Target: &tdesc{Kind: "slice", Elem: elem}}
+		if rapid.Bool().Draw(t, "ptrElems") {
+			c.Target.Elem = &tdesc{Kind: "ptr", Elem: elem}
+		}
+		st.Class("unmarshal-subquery")
+		shape, _ := shapeOf(c.Target)
+		st.NonTrivial("unmarshal|" + shape + c.Select + fmt.Sprint(len(ev)))
+		if len(ev) <= 20 {
+			st.Sample("unmarshal|"+shape, map[string]any{"select": c.Select, "target": shape})
+		}
+		c18Unmarshal.run(t, c)
 	})
 	// (ii) composition and (iii) P/f() = f(P), on the implementation alone
 	runProp(t, "compose", 18000, 300000, func(t *rapid.T) {
